@@ -44,6 +44,8 @@ var c08Members = []memberSet{
 	{"target-alias", [][2]string{{"A", "0"}, {"B", "1"}, {"B2", "1"}}, [][2]string{{"A", "0"}, {"B", "1"}, {"B2", "1"}}, nil},
 	{"both-alias-same-name", [][2]string{{"A", "0"}, {"A2", "0"}, {"B", "1"}}, [][2]string{{"A", "0"}, {"A2", "0"}, {"B", "1"}}, nil},
 	{"prefixed", [][2]string{{"ColA", "0"}, {"ColB", "1"}}, [][2]string{{"A", "0"}, {"B", "1"}}, nil},
+	{"unexported-source-member", [][2]string{{"A", "0"}, {"B", "1"}, {"!c", "2"}}, [][2]string{{"A", "0"}, {"B", "1"}, {"!c", "2"}}, nil},
+	{"unexported-target-member", [][2]string{{"A", "0"}, {"B", "1"}}, [][2]string{{"A", "0"}, {"B", "1"}, {"!c", "2"}}, nil},
 }
 
 // c08 method-level line menus; $P is replaced by the scenario's member prefix.
@@ -64,7 +66,12 @@ func buildC08(id string, un enumUnder, ms memberSet, mapLine, unknown, unknownLe
 		for _, m := range mem {
 			var idx int
 			fmt.Sscan(m[1], &idx)
-			d.Consts = append(d.Consts, space.Const{Name: pfx + m[0], Lit: lits[idx]})
+			name := pfx + m[0]
+			if strings.HasPrefix(m[0], "!") {
+				// unexported member: lower-case first letter
+				name = "e" + id + m[0][1:]
+			}
+			d.Consts = append(d.Consts, space.Const{Name: name, Lit: lits[idx]})
 		}
 		return d
 	}
